@@ -231,6 +231,15 @@ def check_effects(w):
                                 't%d stream destination received %r which is not a prefix of the object %r'
                                 % (t['idx'], _short(got), _short(t['expect'])),
                                 {'variant': _dl_variant(w, t)})
+            if ok and d in ('nonseekable', 'fifo') and got != t['expect'] \
+                    and t['expect'].startswith(got):
+                # every byte position is written (exactly once): a stream that
+                # ends early on a successful transfer left positions unwritten
+                w.violation('C16', 'stream-incomplete',
+                            't%d succeeded but its stream destination received only %d of %d '
+                            'bytes: data that arrived was withheld or never re-requested'
+                            % (t['idx'], len(got), len(t['expect'])),
+                            {'variant': _dl_variant(w, t)})
             if ok:
                 if d == 'path':
                     got = w.fs.files.get(t['path'])
@@ -438,10 +447,17 @@ def check_c07(w):
                             % (t['idx'], got[0], got[1],
                                [(x['how'], a, m) for x, (a, m) in zip(evs, allowed)]))
         else:
-            if not (fatal or exhausted) and ev['exact']:
+            # With an exact snapshot the transfer was unfinished and had no
+            # recorded failure at the cancel, so the cancellation IS the first
+            # recorded failure: a request that fails afterwards (also the final
+            # one) must not replace it.  Without an exact snapshot a fault that
+            # fired may legitimately have been recorded first.
+            if ev['exact'] and (not (fatal or exhausted) or (
+                    st not in ('success', 'failed', 'cancelled')
+                    and ev.get('exc_before') is None)):
                 w.violation('C07', 'cancel-not-reported',
-                            't%d was %s when cancelled via %s but result() raised %r'
-                            % (t['idx'], st, ev['how'], e))
+                            't%d was %s (no failure recorded) when cancelled via %s but '
+                            'result() raised %r' % (t['idx'], st, ev['how'], e))
         if _is_cancel_exc(e):
             # "... runs its cleanups": what C05 / C06 demand after a failure
             for u in w.s3.uploads.values():
@@ -650,6 +666,19 @@ def check_c12_quiescence(w):
 
 def check_c18(w):
     R = w.shutdown_return
+    f = w.sim.failure
+    if f is not None and f[0] in ('deadlock', 'step-budget') and not w.benign_leftover:
+        # usability: every earlier transfer has finished and reported its
+        # outcome, and a new transfer on the same manager never finishes
+        fresh = [t for t in w.transfers if t.get('fresh')]
+        old = [t for t in w.transfers if not t.get('fresh')]
+        if fresh and all(t['outcome'] is not None for t in old) and \
+                any(t['outcome'] is None for t in fresh):
+            ft = [t for t in fresh if t['outcome'] is None][0]
+            w.violation('C18', 'fresh-transfer-hangs',
+                        'after %d finished transfer(s) (outcomes %s) a new %s never finishes: %s'
+                        % (len(old), [t['outcome'][0] for t in old], ft['type'],
+                           (f[1] or '')[:200]))
     if R is None:
         return
     for t in w.transfers:
